@@ -692,7 +692,14 @@ class OptimizationProblem(EvaluationProblem):
                     [self._CONSTRAINTS_GROUP, self._OBSERVABLES_GROUP],
                 ):
                     if functions:
-                        function_group = h5file.require_group(group)
+                        # Track the creation order
+                        # to read the functions in the order they were written.
+                        if group in h5file:
+                            function_group = h5file[group]
+                        else:
+                            function_group = h5file.create_group(
+                                group, track_order=True
+                            )
                         for function in functions:
                             store_attr_h5data(
                                 function, function_group.require_group(function.name)
